@@ -109,6 +109,8 @@ def desc_term(d):
         return C(k, int(d[1]), int(d[2]), int(d[3]))
     if k == "DDict":
         return C(k, desc_term(d[1]), desc_term(d[2]))
+    if k == "DEnumDyn":
+        return C(k, int(d[1]))
     if k == "DArray":
         def dim(x):
             if x is None:
@@ -425,7 +427,7 @@ def gen_desc(rnd, depth, compound_ok=True, layer2=True, extra=()):
 
 def is_fast(d):
     k = d[0]
-    if k in ("DAny", "DRangeI", "DType", "DString", "DPrefixList", "DPrefixMap", "DUnion", "DArray", "DList", "DRangeDyn", "DDict"):
+    if k in ("DAny", "DRangeI", "DType", "DString", "DPrefixList", "DPrefixMap", "DUnion", "DArray", "DList", "DRangeDyn", "DDict", "DEnumDyn"):
         return False
     if k == "DTuple":
         return len(d[1]) > 0
